@@ -57,6 +57,7 @@ type Contract struct {
 	Lemmas   []string
 	MaxPaths int
 	Alias    [][2]string
+	Lemma    bool
 }
 
 var clauseHead = regexp.MustCompile(`^(mode|ghost|requires|ensures|modifies|loop|bound|iface|maynil|inline|trusted|panics-if|nosafety|maxpaths|alias)\b(.*)$`)
@@ -96,6 +97,15 @@ func ParseContractFile(path, pkgPath string) ([]*Contract, error) {
 		}
 		if i := strings.Index(t, " // "); i >= 0 {
 			t = strings.TrimSpace(t[:i])
+		}
+		if strings.HasPrefix(t, "lemma ") {
+			if err := flush(); err != nil {
+				return nil, err
+			}
+			name := strings.TrimSpace(strings.TrimPrefix(t, "lemma "))
+			cur = &Contract{PkgPath: pkgPath, Func: name, Mode: "bv", Bounds: map[string]int{}, Ifaces: map[string]string{}, File: path, Props: map[string]bool{}, Lemma: true}
+			cur.Key = "lemma:" + pkgPath + "." + name
+			continue
 		}
 		if strings.HasPrefix(t, "contract ") {
 			if err := flush(); err != nil {
